@@ -12,13 +12,28 @@ use std::collections::BTreeSet;
 #[derive(Clone, Debug)]
 enum TT { I(String), P(char), L(String), G(char, Vec<TT>) }
 
+/// when set, adjacent punctuation characters are written without a space between them (`::`, `->`, `=>`, `==`),
+/// as people write them; rustc then hands them to the macro as joint punctuation
+static TIGHT: std::sync::atomic::AtomicBool = std::sync::atomic::AtomicBool::new(false);
+
 fn src(ts: &[TT]) -> String {
-    ts.iter().map(|t| match t {
-        TT::I(s) => s.clone(),
-        TT::P(c) => c.to_string(),
-        TT::L(s) => s.clone(),
-        TT::G(d, inner) => { let (o, c) = match d { 'p' => ("(", ")"), 'b' => ("{", "}"), _ => ("[", "]") }; format!("{o} {} {c}", src(inner)) }
-    }).collect::<Vec<_>>().join(" ")
+    let tight = TIGHT.load(std::sync::atomic::Ordering::Relaxed);
+    let mut out = String::new();
+    for (i, t) in ts.iter().enumerate() {
+        let piece = match t {
+            TT::I(s) => s.clone(),
+            TT::P(c) => c.to_string(),
+            TT::L(s) => s.clone(),
+            TT::G(d, inner) => { let (o, c) = match d { 'p' => ("(", ")"), 'b' => ("{", "}"), _ => ("[", "]") }; format!("{o} {} {c}", src(inner)) }
+        };
+        if i > 0 {
+            // never glue `#` (interpolation marker), and never form a comment opener
+            let glue = tight && matches!((&ts[i - 1], t), (TT::P(a), TT::P(b)) if *a != '#' && *b != '#' && !(*a == '/' && (*b == '/' || *b == '*')));
+            if !glue { out.push(' '); }
+        }
+        out.push_str(&piece);
+    }
+    out
 }
 
 fn sexp(ts: &[TT]) -> String {
@@ -54,7 +69,9 @@ const VARS: &[(&str, &str)] = &[("v0", "alpha"), ("v1", "Beta Gamma"), ("v2", "d
 fn gen_body(rng: &mut Rng, depth: usize, len: usize) -> Vec<TT> {
     let mut out = vec![];
     for _ in 0..len {
-        match rng.below(if depth >= 3 { 9 } else { 12 }) {
+        match rng.below(if depth >= 3 { 10 } else { 13 }) {
+            // a path, sometimes a global one (`::a::b`), wherever a token may stand: after `(`, `!`, a literal, ...
+            9 => { if rng.chance(1, 2) { out.push(TT::P(':')); out.push(TT::P(':')); } out.push(TT::I(rng.pick(IDENTS).to_string())); out.push(TT::P(':')); out.push(TT::P(':')); out.push(TT::I(rng.pick(IDENTS).to_string())); }
             0..=2 => out.push(TT::I(rng.pick(IDENTS).to_string())),
             3..=5 => out.push(TT::P(*rng.pick(PUNCTS))),
             6 => out.push(TT::L(rng.pick(LITS).to_string())),
@@ -71,6 +88,7 @@ struct Case { kind: &'static str, tokens: Vec<TT>, env: Vec<(String, String)>, r
 fn env_sexp(env: &[(String, String)]) -> String { format!("(env{})", env.iter().map(|(k, v)| format!(" ({} {})", quote(k), quote(v))).collect::<String>()) }
 
 fn body_case(rng: &mut Rng) -> Case {
+    TIGHT.store(rng.chance(1, 2), std::sync::atomic::Ordering::Relaxed);
     let len = rng.range(1, 10);
     let tokens = gen_body(rng, 0, len);
     let env: Vec<(String, String)> = VARS.iter().map(|(k, v)| (k.to_string(), v.to_string())).collect();
@@ -80,6 +98,7 @@ fn body_case(rng: &mut Rng) -> Case {
 }
 
 fn rfunction_case(rng: &mut Rng) -> Case {
+    TIGHT.store(rng.chance(1, 2), std::sync::atomic::Ordering::Relaxed);
     let mut toks = vec![];
     let is_pub = rng.chance(1, 2); let is_async = rng.chance(1, 2);
     if rng.chance(1, 5) { if is_async { toks.push(TT::I("async".into())); } if is_pub { toks.push(TT::I("pub".into())); } } else { if is_pub { toks.push(TT::I("pub".into())); } if is_async { toks.push(TT::I("async".into())); } }
@@ -114,6 +133,7 @@ fn rfunction_case(rng: &mut Rng) -> Case {
 }
 
 fn function_case(rng: &mut Rng) -> Case {
+    TIGHT.store(rng.chance(1, 2), std::sync::atomic::Ordering::Relaxed);
     let mut toks = vec![];
     if rng.chance(1, 2) { toks.push(TT::I("pub".into())); }
     if rng.chance(1, 2) { toks.push(TT::I("async".into())); }
